@@ -100,8 +100,13 @@ def world2pixel_single_axis(wcs, *world, pixel_axis=None):
     world_new = []
 
     # Now find all the world coordinates that are needed to calculate this
-    # world coordinate, using the axis correlation matrix
-    world_dep = wcs.axis_correlation_matrix[:, pixel_axis]
+    # pixel coordinate. The axis correlation matrix describes the pixel to
+    # world direction, and the inverse transformation can mix all the axes that
+    # are connected to each other (e.g. for a sheared/triangular matrix), so
+    # we cannot just use the column of the correlation matrix here.
+    ndim = len(world)
+    dep = dependent_axes(wcs, ndim - 1 - pixel_axis)
+    world_dep = [ndim - 1 - iw in dep for iw in range(ndim)]
 
     for iw, w in enumerate(world):
         if world_dep[iw]:
